@@ -6,6 +6,7 @@ import (
 	"fmt"
 	"go/constant"
 	"go/types"
+	"os"
 	"strings"
 
 	"golang.org/x/tools/go/ssa"
@@ -26,6 +27,9 @@ type env struct {
 	entryEnv   *env            // the state and loop-carried values on entry to the loop whose clause is being translated
 	pointBlock *ssa.BasicBlock // program point for resolving local variable names (nil: no locals)
 	pointIdx   int
+	sub        *frame          // the helper executed in place inside which the clause is read (nil: none)
+	subBlock   *ssa.BasicBlock // ... and the point in it at which its own locals resolve
+	subIdx     int
 }
 
 // usePoint makes local variable names resolve at the current program point of the top frame.
@@ -65,9 +69,20 @@ func (e *env) localByName(name string) *sym {
 	if p := e.f.parent(); p != nil {
 		top = p
 	}
-	if top.fn == nil || e.pointBlock.Parent() != top.fn {
-		return nil
+	if top.fn != nil && e.pointBlock.Parent() == top.fn {
+		if s := e.localIn(top, e.pointBlock, e.pointIdx, name); s != nil {
+			return s
+		}
 	}
+	// a clause read inside a helper executed in place: the helper's own locals, at its current point
+	if e.sub != nil && e.sub.fn != nil && e.subBlock != nil && e.subBlock.Parent() == e.sub.fn {
+		return e.localIn(e.sub, e.subBlock, e.subIdx, name)
+	}
+	return nil
+}
+
+// localIn resolves name among the locals of frame top at the point (pb, pi) of its function.
+func (e *env) localIn(top *frame, pb *ssa.BasicBlock, pi int, name string) *sym {
 	var best *ssa.DebugRef
 	var bestPhi *ssa.Phi
 	var bestBlock *ssa.BasicBlock
@@ -75,7 +90,7 @@ func (e *env) localByName(name string) *sym {
 	for _, b := range top.fn.Blocks {
 		for i, in := range b.Instrs {
 			if phi, isPhi := in.(*ssa.Phi); isPhi && phi.Comment == name {
-				dom := (b == e.pointBlock && i < e.pointIdx) || (b != e.pointBlock && b.Dominates(e.pointBlock))
+				dom := (b == pb && i < pi) || (b != pb && b.Dominates(pb))
 				if _, have := top.vals[phi]; dom && have {
 					later := bestBlock == nil || (bestBlock == b && i > bestIdx) || (bestBlock != b && bestBlock.Dominates(b))
 					if later {
@@ -91,7 +106,7 @@ func (e *env) localByName(name string) *sym {
 			if v, isVar := d.Object().(*types.Var); !isVar || v.IsField() {
 				continue
 			}
-			dom := (b == e.pointBlock && i < e.pointIdx) || (b != e.pointBlock && b.Dominates(e.pointBlock))
+			dom := (b == pb && i < pi) || (b != pb && b.Dominates(pb))
 			if !dom {
 				continue
 			}
@@ -138,7 +153,7 @@ func (e *env) localByName(name string) *sym {
 		if only != nil && !multi {
 			if in, isInstr := only.(ssa.Instruction); isInstr {
 				db := in.Block()
-				if _, have := top.vals[only]; have && (db == e.pointBlock || db.Dominates(e.pointBlock)) {
+				if _, have := top.vals[only]; have && (db == pb || db.Dominates(pb)) {
 					return top.vals[only]
 				}
 			}
@@ -156,7 +171,9 @@ func (f *frame) env(cur, old *state) *env {
 	for k, v := range f.names {
 		e.vars[k] = v
 	}
-	if !f.inlined {
+	if !f.inlined && topFrames[f.vc] == nil {
+		// the frame of the function under verification registers itself when it is created (verifyFunction); scratch
+		// frames made for reading a clause must not take its place
 		topFrames[f.vc] = f
 	}
 	return e
@@ -310,6 +327,20 @@ func (e *env) ident(name string) *sym {
 				return s
 			}
 		}
+	}
+	if s := e.movedLoopVar(name); s != nil {
+		return s
+	}
+	if os.Getenv("VERIF_DEBUG") != "" {
+		var ks []string
+		for k := range e.vars {
+			ks = append(ks, k)
+		}
+		fn := "?"
+		if e.f != nil && e.f.fn != nil {
+			fn = e.f.fn.Name()
+		}
+		fmt.Fprintf(os.Stderr, "DEBUG unknown %q in frame %s; vars=%v\n", name, fn, ks)
 	}
 	e.errf("unknown identifier %q (package %s)", name, e.pkgPath)
 	return nil
